@@ -269,6 +269,12 @@ func (g *Gen) FuzzCase(tok int, body []byte, ctx sx.T, last tds.Package, tag str
 	g.Out.Case(5, sx.L{sx.I(int64(tok)), sx.B(body), ctx}, sx.L{sx.I(pan), sx.I(over)}, tag)
 }
 
+// Renderers turn a delivered package into (token, field tree); every group registers the types it models.
+var Renderers []func(p tds.Package) (tok int, fields sx.T, ok bool)
+
+// RegisterRenderer adds a renderer (call from init()).
+func RegisterRenderer(f func(p tds.Package) (int, sx.T, bool)) { Renderers = append(Renderers, f) }
+
 // S renders a Go string (raw bytes) as a byte-string atom.
 func S(s string) sx.T { return sx.B([]byte(s)) }
 
